@@ -127,7 +127,7 @@ theorem rt_resp_headers (d : RespDesc) (v : RespVal) (hs : Headers)
 
 /-! ### The response round trip -/
 
-theorem response_roundtrip' (J : JsonCodec) (d : RespDesc) (v : RespVal) (r : HttpResponse)
+theorem response_roundtrip' (J : JsonCodec) (hJ : J.Lawful) (d : RespDesc) (v : RespVal) (r : HttpResponse)
     (hmacro : d.macroAccepts = true) (hsup : d.supported = true) (hstatus : d.status < 400)
     (hhn : (d.headerFields.map (·.header)).Nodup)
     (hcanon : v.Canon d)
@@ -182,8 +182,8 @@ theorem response_roundtrip' (J : JsonCodec) (d : RespDesc) (v : RespVal) (r : Ht
       have : d.rawFields = [] := by
         unfold RespDesc.hasRawBody at hraw; simpa using hraw
       exact List.length_eq_zero_iff.1 (by rw [hl3, this]; rfl)
-    have hne := J.ser_ne j r.body hser
-    have hparse := J.law j r.body hser
+    have hne := hJ.ser_ne j r.body hser
+    have hparse := hJ.law j r.body hser
     unfold responseBodyJson at hj
     unfold decodeRespBody bodyOrEmptyObject
     simp only [hraw, Bool.false_eq_true, if_false, hne, hparse]
